@@ -107,6 +107,10 @@ if __name__ == "__main__":
                 i += 2
             elif args[i] == "--write":
                 i += 1
+            elif args[i] == "--dir":
+                SEEDED = os.path.join(VERIF, args[i + 1])
+                globals()["SEEDED"] = SEEDED
+                i += 2
             else:
                 names.append(args[i])
                 i += 1
